@@ -136,6 +136,46 @@ def check(ctx) -> None:
     ctx.instance("C17-O3", "_get_diff_mol: appends to %s under guards %s; zip over both sides: %s" % (lists, [apps[k] for k in lists], zipped), gd.loc(), ok=sym and zipped)
     if not (sym and zipped):
         ctx.finding("C17-O3", "chem_utils._get_diff_mol:asymmetric", gd.loc(), "the molecules that differ are not collected symmetrically for the two arguments (appends %s; zip over both lists: %s): wc_similarity(a, b) and wc_similarity(b, a) then compare different molecule sets" % ({k: list(v) for k, v in apps.items()}, zipped))
+    # O5: every leaf of the recursion is canonicalised
+    ctx.rule("C17-O5", "every return of normalize_smiles is a join of recursive results or the RDKit canonical form of the molecule", 3)
+    CANON = "synrbl.SynUtils.chem_utils.canon_smiles"
+    cs = prog.func(CANON)
+    canon_ok = any(isinstance(c.func, ast.Attribute) and c.func.attr in ("MolToSmiles", "CanonSmiles") for c in calls(cs))
+    ctx.require(canon_ok, "canon_smiles no longer produces RDKit SMILES")
+
+    def recursive(e, busy=frozenset()) -> bool:
+        """elements come from recursive calls of normalize_smiles"""
+        if isinstance(e, ast.ListComp):
+            return isinstance(e.elt, ast.Call) and getattr(e.elt.func, "id", "") == f.name
+        if isinstance(e, ast.Name):
+            if e.id in busy:
+                return True  # re-ordering of itself (token = sorted(token, ...))
+            a = assignments_to(f, e.id)
+            b2 = busy | {e.id}
+            direct = [v for _, v, _i in a if isinstance(v, ast.ListComp)]
+            return bool(a) and any(recursive(v, b2) for v in direct) and all(recursive(v, b2) or (isinstance(v, ast.Call) and isinstance(v.func, ast.Attribute) and v.func.attr == "split") for _, v, _i in a)
+        if isinstance(e, ast.Call) and getattr(e.func, "id", "") in ("sorted", "list") and e.args:
+            return recursive(e.args[0], busy)
+        return False
+
+    for r in [n for n in own_nodes(f.node) if isinstance(n, ast.Return)]:
+        v = r.value
+        kind = None
+        if isinstance(v, ast.Call) and isinstance(v.func, ast.Attribute) and v.func.attr == "join" and v.args and recursive(v.args[0]):
+            kind = "join of recursive results"
+        elif isinstance(v, ast.Call):
+            tgt = ctx.res.resolve_callee(v, f)
+            if tgt and tgt[0] == "func" and tgt[1] == CANON:
+                kind = "canon_smiles(...)"
+            elif tgt and tgt[0] == "func" and tgt[1] == NORM:
+                kind = "recursive call"
+        ctx.instance("C17-O5", "return %s: %s" % (unparse(v)[:50] if v is not None else None, kind or "not canonical"), f.loc(r), ok=kind is not None)
+        if kind is None:
+            ctx.finding("C17-O5", "chem_utils.normalize_smiles:uncanonical-return", f.loc(r), "normalize_smiles returns %s without RDKit canonicalisation: two spellings of the same molecule ([Li]O / O[Li], [Zn++] / [Zn+2]) keep different normal forms" % (unparse(v)[:50] if v is not None else "None"))
+    # O4: normalize_smiles strips atom maps first; the rewrite must keep the molecule (shared with C15-Rg1/Rg2)
+    from . import c15
+
+    c15.rule_rg1_rg2(ctx, "C17-O4", "C17-O4")
     # benchmark normalises both sides with the same function
     bf = prog.func("synrbl.SynCmd.cmd_benchmark.run")
     n_norm = 0
